@@ -167,6 +167,7 @@ struct LiveObs {
     rtp_oa: Vec<Result<(), String>>, rtp_ao: Vec<Result<(), String>>,
     srtp_fn: Vec<(String, String)>,
     connect_ms: u128,
+    retried_after_timeout: bool,
     keys_raw_o: Option<(SrtpProfile, Vec<u8>, Vec<u8>, Vec<u8>, Vec<u8>)>,
     keys_raw_a: Option<(SrtpProfile, Vec<u8>, Vec<u8>, Vec<u8>, Vec<u8>)>,
 }
@@ -289,10 +290,8 @@ fn live_lines(cfg: &Cfg, o: &LiveObs) -> (String, String) {
     (input, out)
 }
 
-fn class_of(cfg: &Cfg) -> String {
-    let t = cfg.text(); let f: Vec<&str> = t.split('-').collect();
-    format!("{}-{}-{}-{}", f[0], f[1], f[6], f[4])
-}
+/// signature prefix = the **full** lattice point (every dimension), so a known finding covers exactly one point
+fn class_of(cfg: &Cfg) -> String { cfg.text() }
 
 /// the property evaluated directly on the observations (independent of the Lean model)
 fn live_oracles(cfg: &Cfg, o: &LiveObs) -> Vec<(String, String)> {
@@ -301,10 +300,10 @@ fn live_oracles(cfg: &Cfg, o: &LiveObs) -> Vec<(String, String)> {
     if let Some(e) = &o.err { if !o.connected { f.push((format!("cfg:{cls}:not-connected"), e.clone())); return f; } else { f.push((format!("cfg:{cls}:exporter-mismatch"), e.clone())); } }
     if !o.connected { f.push((format!("cfg:{cls}:not-connected"), "no Connected".into())); return f; }
     for (d, r) in [("o->a", &o.data_oa), ("a->o", &o.data_ao)] {
-        if let Some(Err(e)) = r { f.push((format!("cfg:{cls}:data-not-delivered"), format!("{d}: {e}"))); }
+        if let Some(Err(e)) = r { f.push((format!("cfg:{cls}:data-not-delivered:{d}"), e.clone())); }
     }
     for (d, v) in [("o->a", &o.rtp_oa), ("a->o", &o.rtp_ao)] {
-        for (i, r) in v.iter().enumerate() { if let Err(e) = r { f.push((format!("cfg:{cls}:rtp-not-delivered"), format!("{d} section {i}: {e}"))); } }
+        for (i, r) in v.iter().enumerate() { if let Err(e) = r { f.push((format!("cfg:{cls}:rtp-not-delivered:{d}:section{i}"), e.clone())); } }
     }
     if cfg.mode == Mode::WebRtc {
         match (o.role_o, o.role_a) { (Some(a), Some(b)) if a != b => {}, r => f.push((format!("cfg:{cls}:roles-not-complementary"), format!("{r:?}"))) }
@@ -358,6 +357,7 @@ fn emit_live(run: &mut Run, cfg: &Cfg, o: &LiveObs) {
     run.count(&format!("live_ice_{:?}", cfg.ice));
     run.count(&format!("live_mix_{:?}", cfg.mix));
     if o.connected { run.count("live_connected"); }
+    if o.retried_after_timeout { run.count("live_first_attempt_timed_out_and_retried"); }
     for (i, ou) in &o.srtp_fn { run.case("srtp", i, ou, true); }
     if cfg.mode == Mode::Srtp && o.connected {
         // SDES: what each end installed, against the two key strings of the SDP
@@ -475,6 +475,46 @@ pub fn run(args: &Args) {
         }
     });
 
+    // (2b) channels created BEFORE negotiation on both ends (role still None on both: audit A2)
+    rt.block_on(async {
+        let cfg = Cfg { mode: Mode::WebRtc, mix: Mix::Data, bundle: 0, mux_require: true, ice: IceOpt::Full, latching: false, legacy: false, p_offers: true };
+        let mut p = Pair::create(cfg, &Knobs::default());
+        let pre = p.ans.pc.create_data_channel("answerer-pre", None).expect("create_data_channel");
+        let (ro, ra) = (p.off.pc.verif_lc_dtls_role(), p.ans.pc.verif_lc_dtls_role());
+        let oid = p.off.dc.as_ref().map(|d| d.id).unwrap_or(u16::MAX);
+        run.case("dcpre", &format!("{} {}", role_text(ro), role_text(ra)), &format!("{} {}", oid, pre.id), true);
+        if p.negotiate().await.is_ok() && p.wait_connected(T_CONNECT).await.is_ok() {
+            // after negotiation the answerer is the DTLS server: its pre-created channel still has a client-parity id
+            if oid == pre.id { run.fail("dc:both-ends-precreate:same-stream-id", "dcpre", &format!("offerer channel id {} == answerer channel id {} (both allocated with role None)", oid, pre.id)); }
+        }
+        p.off.pc.close(); p.ans.pc.close();
+    });
+
+    // (2c) rtcp-mux / RTCP-socket decisions for MIXED policies and compat modes (audit A1, D1, D2): real
+    // create_offer / set_remote_description / create_answer in Rtp mode, one audio section, no connection needed
+    rt.block_on(async {
+        for mo in [true, false] { for lo in [false, true] { for ma in [true, false] { for la in [false, true] {
+            let mk = |mux: bool, legacy: bool| { let c = Cfg { mode: Mode::Rtp, mix: Mix::Audio, bundle: 0, mux_require: mux, ice: IceOpt::Full, latching: false, legacy, p_offers: true }; PeerConnection::new(rtc_config(&c, true, &Knobs::default())) };
+            let (o, a) = (mk(mo, lo), mk(ma, la));
+            for pc in [&o, &a] { pc.add_transceiver(MediaKind::Audio, rustrtc::TransceiverDirection::SendRecv); }
+            let r: Result<String, String> = async {
+                let offer = o.create_offer().await.map_err(|e| e.to_string())?;
+                o.set_local_description(offer.clone()).map_err(|e| e.to_string())?;
+                a.set_remote_description(offer.clone()).await.map_err(|e| e.to_string())?;
+                let answer = a.create_answer().await.map_err(|e| e.to_string())?;
+                let has = |d: &SessionDescription, k: &str| d.media_sections.iter().any(|m| m.attributes.iter().any(|x| x.key == k)) as u8;
+                Ok(format!("mux={}/{} rtcp={}/{}", has(&offer, "rtcp-mux"), has(&answer, "rtcp-mux"), has(&offer, "rtcp"), has(&answer, "rtcp")))
+            }.await;
+            let out = r.unwrap_or_else(|e| format!("err:{e}"));
+            run.case("muxsdp", &format!("{} {} {} {}", mo as u8, lo as u8, ma as u8, la as u8), &out, mo != ma || lo != la);
+            // oracle: an end that does not multiplex must advertise (= have bound) an RTCP port
+            if out == "mux=1/0 rtcp=0/0" || out.ends_with("rtcp=0/0") && out.starts_with("mux=0/0") {
+                run.fail(&format!("mux:rtp-mixed-policy:{}{}{}{}:no-rtcp-mux-and-no-rtcp-port", mo as u8, lo as u8, ma as u8, la as u8), &format!("muxsdp {} {} {} {}", mo as u8, lo as u8, ma as u8, la as u8), &out);
+            }
+            o.close(); a.close();
+        }}}}
+    });
+
     // (3) pure helpers through hooks
     {
         let ip: std::net::IpAddr = "10.0.0.1".parse().unwrap();
@@ -517,9 +557,14 @@ pub fn run(args: &Args) {
                 let _p = sem.acquire_owned().await.unwrap();
                 // the function-level setup_srtp stream on a subset (it discards the connection's transport)
                 let mut o = exec_live(c, i % 3 == 0).await;
-                // one retry when an oracle failed: a busy host can delay a handshake retransmission past
-                // the bound; a genuine defect of the lattice point fails again
-                if !live_oracles(&c, &o).is_empty() { o = exec_live(c, i % 3 == 0).await; }
+                // Retry ONLY a pure timeout (busy host: a handshake retransmission can exceed the bound). A
+                // definite failure (peer state Failed / an error reason / wrong roles or keys / altered payload)
+                // is reported from the first attempt; every retried first attempt is counted in the evidence.
+                let first = live_oracles(&c, &o);
+                let timeout_only = !first.is_empty() && first.iter().all(|(_, d)| d.contains("not connected within") || d.contains("no RTP within") || d.contains("within 10s") || d.contains("not delivered within") || d.contains("not open within"));
+                let mut retried = false;
+                if timeout_only { retried = true; o = exec_live(c, i % 3 == 0).await; }
+                o.retried_after_timeout = retried;
                 (c, o)
             }));
         }
